@@ -27,7 +27,7 @@ def hexN : Nat → List Char → Nat → Option (Nat × List Char)
 
 /-- A scalar value as a `Char`; `none` for surrogates / out of range (outside the model). -/
 def mkChar (n : Nat) : Option Char :=
-  if h : n.isValidChar then some (Char.ofNatAux n h) else none
+  if n.isValidChar then some (Char.ofNat n) else none
 
 def escOct (e : Char) (rest : List Char) : List Char × List Char :=
   match rest with
